@@ -82,6 +82,7 @@ UNIT_DRIVERS = {
     "pipeline_commit": ["transaction::conflict_enum"],
     "txn_commit": ["transaction::conflict_enum"],
     "write_set": ["transaction::writeset_enum"],
+    "ws_merge": ["transaction::cursor_enum_quick"],
     "oracle": ["transaction::conflict_enum"],
     "point_read": ["snapshot::reads_enum_quick", "snapshot::reads_enum_thorough"],
     "visibility_filter": ["snapshot::reads_enum_quick"],
